@@ -17,6 +17,8 @@ import QV.Spec.Resolve
     C04  T4: a UDP response with TC clear that differs from the TCP one has the same answer and
          authority sections, its additional section is a sub-multiset of TCP's, and no omitted
          record is an address of a name server at or below the delegation point of a referral.
+         T2 (converse): a UDP response has TC set only if the mandatory part (answer, authority,
+         in-bailiwick glue) does not fit the negotiated limit.
          (T1, T2, T3 are audited by `aud`'s `audit`, whose tags are included.)
 -/
 namespace QV.Driver
@@ -91,6 +93,24 @@ def t4Tags (mu mt : Bytes) (du dt : DMsg) : List String :=
          then ["C04:T4-mandatory-glue-omitted"] else []
        else [])
 
+/-- C04 T2, converse: over UDP, TC may be set only if the mandatory part does not fit. The TCP
+    message lists mandatory records first (answer, authority, in-bailiwick glue), then the optional
+    additional ones, then OPT; the octets up to the first optional record are what the UDP run
+    writes too (same calls, same compression), so they fit iff that prefix (+ the 11 reserved OPT
+    octets) is within the UDP limit. Not applied when the TCP run ended in SERVFAIL (the T3 corner). -/
+def t2ConverseTags (limit : Nat) (tb : Bytes) (du dt : DMsg) : List String :=
+  if !du.tc ∨ dt.rcode = 2 ∨ dt.ar.any (fun r => r.ty = 250) then [] else
+  let ns := dt.ns.filter (fun r => r.ty ≠ 41 ∧ r.ty ≠ 250)
+  let isReferral := !ns.isEmpty && ns.all (fun r => r.ty = 2)
+  let child := (ns.head?.map (fun r => labels r.owner)).getD []
+  let targets := ns.filterMap (fun r => exactName r.rdata)
+  let mandatory (r : DRr) : Bool :=
+    isReferral && (r.ty = 1 || r.ty = 28) && child.isSuffixOf (labels r.owner) && targets.contains (labels r.owner)
+  let firstOptional := dt.ar.find? (fun r => !mandatory r)
+  let prefixEnd := match firstOptional with | some r => r.pos | none => tb.size
+  let need := prefixEnd + (if dt.ar.any (fun r => r.ty = 41) then 11 else 0)
+  if need ≤ limit then [s!"C04:T2-tc-although-mandatory-part-fits-{need}<={limit}"] else []
+
 def serverAnswerHandler : Handler := fun op args =>
   match op, args with
   | "audans", [payload, cat, req, u, t] =>
@@ -114,7 +134,7 @@ def serverAnswerHandler : Handler := fun op args =>
               | .bytes ub, .bytes tb =>
                 if ub ≠ tb then
                   match specDecodeMsg ub, specDecodeMsg tb with
-                  | some du, some dt => if du.tc then [] else t4Tags ub tb du dt
+                  | some du, some dt => if du.tc then t2ConverseTags sc.limitUdp tb du dt else t4Tags ub tb du dt
                   | _, _ => []
                 else []
               | _, _ => []
